@@ -1,7 +1,7 @@
 SPECIFICATION Spec
 CONSTANTS
   Callers = {"k1"}
-  Reqs = {"r1","x3"}
+  Reqs = {"r1","x1"}
   CallReqs = {"r1"}
   CancelOf <- Cancel1
   DupOf <- NoDupOf
